@@ -47,7 +47,8 @@ SIG_GRID = "retain/nested/grid-backup-single-slot"
 SIG_MAT = "retain/component-scope/own-material-cache-leaks"
 # Known candidate defects are kept out of the search by construction (labels excluded:<sig>); a replay case may carry
 # "noexclude": true to reproduce them (replays/C16/defect_*.json).
-EXCLUDE_KNOWN = {SIG_SHAPE: True, SIG_GRID: True, SIG_MAT: True}
+# all three were repaired in /repo (fix: commits d4f3b68, acb98ca, 92a38c4): the shapes are searched again
+EXCLUDE_KNOWN = {SIG_SHAPE: False, SIG_GRID: False, SIG_MAT: False}
 if os.environ.get("VP_C16_NOEXCLUDE"):  # debugging aid: "all" or a comma-separated list of signatures to search again
     _which = os.environ["VP_C16_NOEXCLUDE"]
     for _k in EXCLUDE_KNOWN:
